@@ -376,7 +376,14 @@ pub mod details {
         ///  * It has to be ensured that the memory is initialized with
         ///    [`SafelyOverflowingIndexQueue::init()`].
         pub unsafe fn pop(&self) -> Option<u64> {
-            let mut read_position = self.read_position.load(Ordering::Relaxed);
+            ////////////////
+            // SYNC POINT R
+            ////////////////
+            // the producer advances the read position when it recycles the oldest element in the
+            // overflow case; acquiring it guarantees that the write position loaded below is not
+            // older than the one the producer published before, otherwise a stale write position
+            // behind the read position would be mistaken for a non-empty queue
+            let mut read_position = self.read_position.load(Ordering::Acquire);
             ////////////////
             // SYNC POINT W
             ////////////////
